@@ -41,6 +41,9 @@ CLAIMED["C04"] = ("property testing with generated exporting modules: round-trip
 CLAIMED["C07"] = ("generated-input validity checking over histories: every builtin/method (discovered at run time) x hostile argument tuples, ill-typed operators/statements, failures at generated depths, constant-substituted programs; located-error predicate and recovery probe after every error; worker-process isolation",
     "Exploration: every evaluation must end in Ok/Err (no panic/abort/Internal), errors must carry valid spans and resolvable call stacks, and after each error the same evaluator/module must behave like a fresh one on a probe program.",
     "Repeat/shift counts are bounded; resource-limit errors are accepted outcomes.", "DESIGN.md §5 C07")
+CLAIMED["C15"] = ("model-based property testing: exhaustive (shape x limit x depth-around-threshold) enumeration against a frame-count model, and proptest-generated tick workloads with statically known tick counts against budget/cancellation models",
+    "Exploration, exhaustive around every configured call-depth limit for 11 recursion shapes (unfrozen and frozen): success iff frames <= limit, StackOverflow otherwise, never a crash, evaluator reusable. Tick budgets and cancellation are checked against an exact count model with the documented 1000-tick check interval.",
+    "Frame constants calibrated on the unchanged tree; tick model excludes native-callback and known-method calls (documented as not counted).", "DESIGN.md §5 C15")
 NOT_YET = {}
 
 def main():
